@@ -39,10 +39,19 @@ EXTRA = {"utf-8": _U + ["\ufeff"], "utf-8-sig": _U, "utf-16": _U, "utf-32": _U, 
 KINDS = ["plain", "gz", "bz2", "mem"]
 
 
-def _target(kind, tmp, name):
+_LONG = [["p" * 40, "q" * 40]] + [["old-%02d" % i * 6, "stale"] for i in range(12)]
+
+
+def _target(kind, tmp, name, prior=False):
+    """prior: the target already holds a longer table written earlier with a to* function (the same MemorySource object,
+    or the same path): a to* call replaces it, whatever its length."""
     if kind == "mem":
-        return etl.MemorySource()
-    return os.path.join(tmp, name + {"plain": "", "gz": ".gz", "bz2": ".bz2"}[kind])
+        t = etl.MemorySource()
+    else:
+        t = os.path.join(tmp, name + {"plain": "", "gz": ".gz", "bz2": ".bz2"}[kind])
+    if prior:
+        etl.tocsv(_LONG, t)
+    return t
 
 
 def _reader(kind, target):
@@ -75,7 +84,7 @@ def csv_case(draw, tier):
     t1 = [draw(hdrs)] + draw(rows)
     nappend = draw(st.sampled_from([0, 0, 1, 2]))
     c = {"encoding": enc, "quoting": quoting, "table": t1, "appends": [[draw(hdrs)] + draw(rows) for _ in range(nappend)],
-         "tsv": draw(st.booleans()), "kind": draw(st.sampled_from(KINDS)), "write_header": draw(st.sampled_from([True, False, None])),
+         "tsv": draw(st.booleans()), "kind": draw(st.sampled_from(KINDS)), "prior": draw(st.booleans()), "write_header": draw(st.sampled_from([True, False, None])),
          "append_header": draw(st.sampled_from([True, False, None])), "read_header": draw(st.sampled_from([None, None, ["h1", "h2"]]))}
     if not c["tsv"] or draw(st.booleans()):
         c["delimiter"] = draw(st.sampled_from([",", ";", "\t", "|", " "]))
@@ -143,7 +152,7 @@ def check_csv(case, ctx):
     ctx.label("enc:" + enc, "kind:" + kind, "appends:%d" % len(appends), "quoting:" + case["quoting"], "tsv" if case["tsv"] else "csv")
     ctx.nontrivial(bool(exp) and (special or appends or kind in ("gz", "bz2")))
     tmp = ctx.tmpdir()
-    target = _target(kind, tmp, "t.csv")
+    target = _target(kind, tmp, "t.csv", prior=case.get("prior"))
     tofn, appfn, fromfn = (etl.totsv, etl.appendtsv, etl.fromtsv) if case["tsv"] else (etl.tocsv, etl.appendcsv, etl.fromcsv)
     try:
         tofn(codec.snapshot(t1), target, encoding=enc, **dict(kw, **whkw))
@@ -182,7 +191,7 @@ def pickle_case(draw, tier):
     hdrs = st.lists(st.one_of(st.text(max_size=3), st.integers(0, 3)), max_size=3)
     rows = st.lists(st.lists(PCELL, max_size=4), max_size=4)
     return {"table": [draw(hdrs)] + draw(rows), "appends": [[draw(hdrs)] + draw(rows) for _ in range(draw(st.sampled_from([0, 1, 2])))],
-            "kind": draw(st.sampled_from(KINDS)), "write_header": draw(st.sampled_from([True, False, None])),
+            "kind": draw(st.sampled_from(KINDS)), "prior": draw(st.booleans()), "write_header": draw(st.sampled_from([True, False, None])),
             "append_header": draw(st.sampled_from([True, False, None])),
             "protocol": draw(st.sampled_from([-1, 0, 2, 4])), "rowtype": draw(st.sampled_from(["list", "tuple"]))}
 
@@ -199,7 +208,7 @@ def check_pickle(case, ctx):
     ctx.label("kind:" + kind, "appends:%d" % len(appends), "protocol:%d" % case["protocol"])
     ctx.nontrivial(len(exp) >= 2 and (appends or kind in ("gz", "bz2") or any(not isinstance(c, (str, int)) for r in exp for c in r)))
     tmp = ctx.tmpdir()
-    target = _target(kind, tmp, "t.p")
+    target = _target(kind, tmp, "t.p", prior=case.get("prior"))
     try:
         etl.topickle([conv(r) for r in codec.snapshot(t1)], target, protocol=case["protocol"], **whkw)
         for t in appends:
@@ -232,7 +241,7 @@ JCELL = st.recursive(st.one_of(st.none(), st.booleans(), st.integers(-3, 3), st.
 def json_case(draw, tier):
     names = draw(st.lists(st.text(st.sampled_from(list('ab\xe9 "\n1')), max_size=3), min_size=1, max_size=3, unique=True))
     rows = draw(st.lists(st.lists(JCELL, max_size=4), min_size=1, max_size=4))
-    return {"table": [names] + rows, "kind": draw(st.sampled_from(KINDS)), "lines": draw(st.booleans()),
+    return {"table": [names] + rows, "kind": draw(st.sampled_from(KINDS)), "prior": draw(st.booleans()), "lines": draw(st.booleans()),
             "form": draw(st.sampled_from(["dicts", "dicts", "arrays", "arrays-header"])), "header_arg": draw(st.booleans()),
             "prefix": draw(st.sampled_from([None, None, "x("])), "indent": draw(st.sampled_from([None, None, 1]))}
 
@@ -245,7 +254,7 @@ def _sq(t, missing=None):
 def check_json(case, ctx):
     t, kind, lines, form = case["table"], case["kind"], case["lines"], case["form"]
     tmp = ctx.tmpdir()
-    target = _target(kind, tmp, "t.json")
+    target = _target(kind, tmp, "t.json", prior=case.get("prior"))
     flat = json.dumps(t)
     ctx.label("kind:" + kind, "form:" + form, "lines" if lines else "array")
     ctx.nontrivial(kind in ("gz", "bz2") or "\\" in flat or len(t) > 2)
